@@ -20,7 +20,7 @@ ASSUMPTIONS = ['root-unusable error path is only asserted when the root has >=2 
 
 
 def budget(tier):
-    return {'quick': 400, 'thorough': 8000}[tier]
+    return {'quick': 800, 'thorough': 10000}[tier]
 
 
 @st.composite
